@@ -1,6 +1,8 @@
 package main
 
 import (
+	"sort"
+	"strings"
 	"fmt"
 	"go/token"
 	"go/types"
@@ -17,6 +19,13 @@ func checkC05(c *Ctx) {
 	c.checkDoubleChecked("O1 get-or-create", eng)
 	c.checkPrivateKeyBuffer("O1 private-key-buffer")
 	c.checkRootInEveryShard("O1 root-in-every-shard")
+	c.checkKeyBytesFaithful("O3 byte-faithful-key")
+	c.checkShardFromKey("O1 shard-from-key")
+	// the tags a scope carries are the tags its key was built from: right-most map wins in the merge
+	// exactly as in the key writer (shared with C04 O3)
+	if merge := c.fn("", "", "mergeRightTags"); merge != nil {
+		c.checkMergeRight("O4 merge-precedence", merge)
+	}
 	// O5 (shared with C04 O4 / C07 O3): the key a scope is registered under keeps describing it.
 	// A scope's tags are a private copy (a caller who keeps mutating the map it passed in would
 	// otherwise change the tag set of a scope that stays registered under the old key), and an
@@ -661,4 +670,255 @@ func (c *Ctx) checkRootInEveryShard(rule string) {
 			why+": Subscope looks a key up only in the shard it hashes to under a random seed, so a derivation that ends in the root's own identity misses the root and creates a twin scope; what is recorded through the two handles is reported, and shown by Snapshot, as two competing entries under one name")
 	}
 	c.floor(rule, n, 1)
+}
+
+// checkKeyBytesFaithful: the registry / snapshot key is built from the BYTES of its components. Decoding
+// a component rune by rune (range over the string, []rune conversion, utf8.DecodeRune*) and encoding
+// it again maps every invalid UTF-8 byte to U+FFFD: two components that differ only in invalid bytes get
+// the same key and therefore the same scope, although names and tags are delivered byte for byte.
+func (c *Ctx) checkKeyBytesFaithful(rule string) {
+	w := c.fn("", "", "keyForPrefixedStringMapsAsKey")
+	if w == nil {
+		c.missing(rule, "tally.keyForPrefixedStringMapsAsKey")
+		return
+	}
+	key := c.fnKey(w)
+	c.sawFunc(key)
+	seen := map[*ssa.Function]bool{}
+	var bad ssa.Instruction
+	var visit func(fn *ssa.Function, depth int)
+	visit = func(fn *ssa.Function, depth int) {
+		if fn == nil || fn.Blocks == nil || seen[fn] || depth < 0 || bad != nil {
+			return
+		}
+		seen[fn] = true
+		instrsOf(fn, func(in ssa.Instruction) {
+			if bad != nil {
+				return
+			}
+			switch x := in.(type) {
+			case *ssa.Range:
+				if b, ok := x.X.Type().Underlying().(*types.Basic); ok && b.Info()&types.IsString != 0 {
+					bad = in
+				}
+			case *ssa.Convert:
+				from, to := x.X.Type().Underlying(), x.Type().Underlying()
+				if fb, ok := from.(*types.Basic); ok && fb.Info()&types.IsString != 0 {
+					if sl, isSl := to.(*types.Slice); isSl {
+						if eb, isB := sl.Elem().Underlying().(*types.Basic); isB && eb.Kind() == types.Int32 {
+							bad = in // []rune(s)
+						}
+					}
+				}
+			case *ssa.Call:
+				if g := staticCallee(x); g != nil {
+					if g.Pkg != nil && g.Pkg.Pkg.Path() == "unicode/utf8" && strings.HasPrefix(g.Name(), "Decode") {
+						bad = in
+						return
+					}
+					if c.inModule(g) && g.Pkg == fn.Pkg {
+						visit(g, depth-1)
+					}
+				}
+			}
+		})
+	}
+	visit(w, 2)
+	if bad != nil {
+		c.bad(rule, key, bad.Pos(), "the key writer decodes a component rune by rune: invalid UTF-8 bytes all become U+FFFD, so components that differ only in such bytes produce one key and share one scope (their metrics are merged under the first one's name and tags)", c.describe(bad))
+		return
+	}
+	c.ok(rule, key, w.Pos(), "key components are appended byte for byte (no rune decoding in the key writer or its helpers)")
+}
+
+// checkShardFromKey: Subscope looks an identity up in ONE shard, so the shard index has to be a
+// function of the canonical key (and of per-registry constants) alone. Whatever else flows into it
+// (the parent's fields, the tag map before canonicalisation, an identity accumulated along the
+// derivation) makes two derivations of one identity look in different shards and create two scopes.
+// Decided by a backward data slice of the index expression `subscopes[<index>]` in Subscope.
+func (c *Ctx) checkShardFromKey(rule string) {
+	fn := c.fn("", "scopeRegistry", "Subscope")
+	fSubs := c.field("", "scopeRegistry", "subscopes")
+	kw := c.fn("", "", "keyForPrefixedStringMapsAsKey")
+	if fn == nil || fSubs == nil || kw == nil {
+		c.missing(rule, "tally.scopeRegistry.Subscope / subscopes / keyForPrefixedStringMapsAsKey")
+		return
+	}
+	key := c.fnKey(fn)
+	c.sawFunc(key)
+	var idx ssa.Value
+	var at ssa.Instruction
+	instrsOf(fn, func(in ssa.Instruction) {
+		if ia, ok := in.(*ssa.IndexAddr); ok && idx == nil {
+			if f, _ := loadedField(ia.X); f == fSubs {
+				idx, at = ia.Index, in
+			}
+		}
+	})
+	if idx == nil {
+		// the shard may be picked by a helper that is handed the key
+		instrsOf(fn, func(in ssa.Instruction) {
+			call, ok := in.(*ssa.Call)
+			if !ok || idx != nil {
+				return
+			}
+			g := staticCallee(call)
+			if g == nil || !c.inModule(g) || g.Blocks == nil {
+				return
+			}
+			instrsOf(g, func(i2 ssa.Instruction) {
+				if ia, ok2 := i2.(*ssa.IndexAddr); ok2 && idx == nil {
+					if f, _ := loadedField(ia.X); f == fSubs {
+						idx, at = ia.Index, i2
+					}
+				}
+			})
+		})
+	}
+	if idx == nil {
+		c.undecided(rule, key, fn.Pos(), "no shard selection subscopes[<index>] found in Subscope or a helper it calls")
+		return
+	}
+	var foreign []string
+	keyLeaves := 0
+	seen := map[ssa.Value]bool{}
+	var visit func(v ssa.Value, f *ssa.Function, bind map[ssa.Value]ssa.Value, depth int)
+	visit = func(v ssa.Value, f *ssa.Function, bind map[ssa.Value]ssa.Value, depth int) {
+		if v == nil || seen[v] {
+			return
+		}
+		seen[v] = true
+		if depth == 0 {
+			foreign = append(foreign, "too deep: "+v.Name())
+			return
+		}
+		switch x := v.(type) {
+		case *ssa.Const, *ssa.Global, *ssa.Function, *ssa.Builtin:
+		case *ssa.Parameter:
+			if b, ok := bind[x]; ok {
+				visit(b, fn, nil, depth-1)
+				return
+			}
+			if f != nil && len(f.Params) > 0 && x == f.Params[0] && f.Signature.Recv() != nil {
+				return // the registry itself
+			}
+			foreign = append(foreign, "parameter "+x.Name())
+		case *ssa.Convert:
+			visit(x.X, f, bind, depth)
+		case *ssa.ChangeType:
+			visit(x.X, f, bind, depth)
+		case *ssa.MakeInterface:
+			visit(x.X, f, bind, depth)
+		case *ssa.BinOp:
+			visit(x.X, f, bind, depth-1)
+			visit(x.Y, f, bind, depth-1)
+		case *ssa.Phi:
+			for _, e := range x.Edges {
+				visit(e, f, bind, depth-1)
+			}
+		case *ssa.Extract:
+			visit(x.Tuple, f, bind, depth)
+		case *ssa.Slice:
+			visit(x.X, f, bind, depth)
+		case *ssa.Alloc:
+			// a local: everything stored into it, and every call that mutates it (hash state)
+			if x.Referrers() != nil {
+				for _, r := range *x.Referrers() {
+					switch u := r.(type) {
+					case *ssa.Store:
+						if u.Addr == ssa.Value(x) {
+							visit(u.Val, f, bind, depth-1)
+						}
+					case ssa.CallInstruction:
+						for i, a := range u.Common().Args {
+							if i > 0 || u.Common().IsInvoke() {
+								visit(a, f, bind, depth-1)
+							}
+						}
+					}
+				}
+			}
+		case *ssa.UnOp:
+			if x.Op != token.MUL {
+				visit(x.X, f, bind, depth)
+				return
+			}
+			if fld, base := loadedField(x); fld != nil {
+				r := canon(rootOf(base))
+				if f != nil && len(f.Params) > 0 && r == ssa.Value(f.Params[0]) && f.Signature.Recv() != nil {
+					return // a field of the registry (seed, shard list): per-registry constant
+				}
+				if b, ok := bind[r]; ok && canon(b) == ssa.Value(fn.Params[0]) {
+					return
+				}
+				foreign = append(foreign, "field "+fld.Name()+" of "+accessPath(base))
+				return
+			}
+			visit(x.X, f, bind, depth)
+		case *ssa.FieldAddr, *ssa.IndexAddr:
+			foreign = append(foreign, "address "+accessPath(v))
+		case *ssa.Call:
+			if isBuiltin(x, "len") || isBuiltin(x, "cap") {
+				if fld, _ := loadedField(x.Call.Args[0]); fld == fSubs {
+					return
+				}
+				visit(x.Call.Args[0], f, bind, depth-1)
+				return
+			}
+			g := staticCallee(x)
+			if g == kw {
+				keyLeaves++
+				return
+			}
+			if g != nil && c.inModule(g) && g.Blocks != nil && c.returnsDerivedFromKeyWriter(g, kw) {
+				keyLeaves++
+				return
+			}
+			// any other call: its result depends on its arguments (receiver included)
+			for _, a := range x.Call.Args {
+				visit(a, f, bind, depth-1)
+			}
+			if x.Call.IsInvoke() {
+				visit(x.Call.Value, f, bind, depth-1)
+			}
+		default:
+			foreign = append(foreign, fmt.Sprintf("%T %s", v, v.Name()))
+		}
+	}
+	host := at.Parent()
+	bind := map[ssa.Value]ssa.Value{}
+	if host != fn {
+		// helper: bind its parameters to the arguments of its (single) call in Subscope
+		instrsOf(fn, func(in ssa.Instruction) {
+			if call, ok := in.(*ssa.Call); ok && staticCallee(call) == host {
+				for i, p := range host.Params {
+					if i < len(call.Call.Args) {
+						bind[p] = call.Call.Args[i]
+					}
+				}
+			}
+		})
+	}
+	visit(idx, host, bind, 12)
+	sort.Strings(foreign)
+	c.check(len(foreign) == 0 && keyLeaves > 0, rule, key, at.Pos(), "the shard index depends only on the canonical key and on the registry's own constants",
+		fmt.Sprintf("the shard a scope is looked up in is not a function of its canonical key alone (other inputs: %v; key reached: %v): two derivations of the same identity can hash to different shards, miss each other and create two live scopes for one identity", foreign, keyLeaves > 0), c.describe(at))
+}
+
+// returnsDerivedFromKeyWriter: g is a wrapper whose result is the key writer's result.
+func (c *Ctx) returnsDerivedFromKeyWriter(g, kw *ssa.Function) bool {
+	n := 0
+	for _, r := range returnsOf(g) {
+		if len(r.Results) != 1 {
+			return false
+		}
+		for _, va := range resultValues(r, 0) {
+			n++
+			call, ok := stripConv(va.Val).(*ssa.Call)
+			if !ok || staticCallee(call) != kw {
+				return false
+			}
+		}
+	}
+	return n > 0
 }
